@@ -62,6 +62,12 @@ def cases(tier, rng):
             for seq in itertools.product(alpha, repeat=d):
                 ops, exact = mk_ops(seq)
                 yield Case("bar.run", ["C", m[0], m[1], ops], "history/depth%d" % d, kind=("run", m, exact))
+    # meters with a zero count and a real beat unit: the bar is unbounded, '+' still places one beat unit
+    for m in [(0, 8), (0, 1), (0, 16), (0, 2)]:
+        for d in range(0, 3):
+            for seq in itertools.product(alpha, repeat=d):
+                ops, exact = mk_ops(seq)
+                yield Case("bar.run", ["C", m[0], m[1], ops], "history/zero-count", kind=("run", m, exact))
     # fills to capacity
     for m in METERS[:-1]:
         length = F(m[0], m[1])
